@@ -28,7 +28,7 @@ import (
 // finalizer goes only after the CRD is gone or was never ours.
 //
 //gosym:harness
-//gosym:cover crd-deleted waiting-for-claims finalizer-removed fault-hit foreign-crd claim-deleted
+//gosym:cover crd-deleted waiting-for-claims finalizer-removed fault-hit foreign-crd claim-deleted terminating-claim
 func HarnessC08Offered() {
 	s := zzStore()
 	d := zzXRD()
@@ -62,8 +62,13 @@ func HarnessC08Offered() {
 		x.SetKind("Thing")
 		x.SetNamespace("ns")
 		x.SetName("c" + string(rune('0'+i)))
-		if zz.Bool("claim" + string(rune('0'+i)) + ".hasFinalizer") {
+		switch zz.Choose("claim"+string(rune('0'+i))+".state", 3) { // no finalizer, held by its finalizer, already terminating (held by its finalizer)
+		case 1:
 			x.SetFinalizers([]string{"claim.apiextensions.crossplane.io"})
+		case 2:
+			x.SetFinalizers([]string{"claim.apiextensions.crossplane.io"})
+			x.SetDeletionTimestamp(&now)
+			zz.Cover("terminating-claim")
 		}
 		s.Put(x)
 	}
